@@ -89,6 +89,7 @@ class AsyncCircusClient(object):
                 messages = yield tornado.gen.with_timeout(
                     datetime.timedelta(seconds=self._timeout), future)
             except tornado.gen.TimeoutError:
+                self.stream.stop_on_recv()
                 raise CallError("Timed out.")
 
             for message in messages:
